@@ -384,4 +384,20 @@ theorem rules_summary_test (cfg : LoaderCfg) (alloc : Nat → Nat) (hnz : ∀ i,
         else .ok A' :=
   loadRules_eq cfg alloc hnz s
 
+/-- **Can rules.c refuse what the arena loader let through after a single-field corruption?** Header fields, the buffer
+    count, offsets and inner sizes never get that far (`corrupt_*`).  For a size change that the arena loader accepted
+    (so: the last entry, `size_change_accepted_iff`) on an image with a non-empty summary buffer: the summary test fires
+    exactly when the overwritten field is the summary buffer's own size and the new value is 0 — which the arena loader
+    accepts only if the summary's length is a multiple of 8 (`corrupt_size_last_lowered_dvd`; sizeof(YR_SUMMARY) is 12,
+    so for files written by the compiler the test is never what rejects a single-field corruption).  rules.c has no
+    other test: a summary cut to 4 bytes is used as is (its counters read uninitialised capacity). -/
+theorem rules_after_size_corruption (cfg : LoaderCfg) (alloc : Nat → Nat) (hnz : ∀ i, alloc i ≠ 0) (a : Arena)
+    (hn : a.bufs.length ≤ maxBuffers) (hsum : summarySection < a.bufs.length)
+    (hsz : (a.bufAt summarySection).data.length ≠ 0) (hsz2 : (a.bufAt summarySection).data.length < 2 ^ 32)
+    (i : Nat) (hi : i < a.bufs.length) (z : Nat) (hz : z < 2 ^ 32) (A' : Arena)
+    (hA : load cfg alloc (patch (save a) (sizeFieldAt i) (leBytes 4 z)) = .ok A') :
+    loadRules cfg alloc (patch (save a) (sizeFieldAt i) (leBytes 4 z)) =
+      if i = summarySection ∧ z = 0 then .error .corruptFile else .ok A' :=
+  loadRules_after_size_patch cfg alloc hnz a hn hsum hsz hsz2 i hi z hz A' hA
+
 end YaraModel.Arena
